@@ -22,6 +22,13 @@ from contracts.resource import decode
 from contracts.solution import is_solution
 
 
+def dated_fields(P, case, i):
+    """release date and due date (hard for even ranks, soft for odd ones) of the i-th task of a `dated` case"""
+    if not case.get("dated"):
+        return {}
+    return dict(release_date=P.int(f"t{i+1}_release"), due_date=P.int(f"t{i+1}_due"), due_date_is_deadline=(i % 2 == 0))
+
+
 def make_buffer(ps, P, kind, name, init=True, final=False, bounds=True):
     kw = dict(name=name)
     if init:
@@ -66,6 +73,8 @@ class BufferLevelSequence(Contract):
                     out.append(dict(kind=kind, acc=acc, init=init, final=final, opt=False))
             out.append(dict(kind=kind, acc=("U", "L"), init=True, final=False, opt=True))
             out.append(dict(kind=kind, acc=("U", "L"), init=True, final=True, opt=False, same_task=True))
+            # tasks that declare a release date and a (hard / soft) due date
+            out.append(dict(kind=kind, acc=("U", "L"), init=True, final=True, opt=True, dated=True))
         return out
 
     def scenario(self, ps, P, case):
@@ -78,7 +87,7 @@ class BufferLevelSequence(Contract):
                 t = tasks[0]  # the task that unloaded at its start loads at its end
             else:
                 P.assume(P.int(f"t{i+1}_dur") >= 1)
-                t = ps.FixedDurationTask(name=f"t{i+1}", duration=P.int(f"t{i+1}_dur"), optional=(case["opt"] and i == 0))
+                t = ps.FixedDurationTask(name=f"t{i+1}", duration=P.int(f"t{i+1}_dur"), optional=(case["opt"] and i == 0), **dated_fields(P, case, i))
             P.assume(P.int(f"q{i+1}") >= 1)
             if a == "U":
                 ps.TaskUnloadBuffer(task=t, buffer=b, quantity=P.int(f"q{i+1}"))
@@ -164,6 +173,7 @@ class BufferCompleteness(Contract):
                 out.append(dict(kinds=(kind,), acc=acc, shared=True))
             # one task takes from the buffer when it starts and gives back when it ends
             out.append(dict(kinds=(kind,), acc=("U", "L"), shared=True, same_task=True))
+            out.append(dict(kinds=(kind,), acc=("U", "L"), shared=True, dated=True))
         return out
 
     def scenario(self, ps, P, case):
@@ -176,7 +186,7 @@ class BufferCompleteness(Contract):
                 t = tasks[0][0]
             else:
                 P.assume(P.int(f"t{i+1}_dur") >= 1)
-                t = ps.FixedDurationTask(name=f"t{i+1}", duration=P.int(f"t{i+1}_dur"))
+                t = ps.FixedDurationTask(name=f"t{i+1}", duration=P.int(f"t{i+1}_dur"), **dated_fields(P, case, i))
             P.assume(P.int(f"q{i+1}") >= 1)
             b = buffers[0] if case["shared"] or len(buffers) == 1 else buffers[i]
             if a == "U":
